@@ -1,1 +1,4 @@
 pub mod c01;
+pub mod c16;
+pub mod c17;
+pub mod c18;
